@@ -164,6 +164,11 @@ def spec(case, mos, io):
     fails = []
     if case["dom"] == "c15broken":
         for flavour, (res, ran) in sorted(io["broken"].items()):
+            if flavour == "message_text":
+                if io["broken"][flavour] != io["normal"][flavour]:
+                    fails.append("mode %s/%s: the text of the violation of an explicitly enabled contract differs from the normal "
+                                 "interpreter's: %s vs %s" % (case["mode"], case["env"], io["broken"][flavour], io["normal"][flavour]))
+                continue
             if flavour == "strengthening_override":
                 if res != "TypeError":
                     fails.append("mode %s/%s: an explicitly enabled @require strengthening a base method without preconditions: %s "
